@@ -650,9 +650,26 @@ def check_links(ctx, F):
                                 isinstance(x.func.value, ast.Name) and x.func.value.id in closure[lname]:
                             good.add(nd.id)
             opnodes = [nd for nd in cfg.nodes if any(x is opn for x in subnodes(cfg, nd))]
+            # `saved = len(L)` before the surgery and `if len(L) == saved: return` after it: on that edge nothing shifted.  Lists that receive
+            # the same surgery in this function (the parallel keys / values of a Dict) stand for each other.
+            twin_lists = {l for o_, l in ops if any(norm(getattr(o_, 'targets', [None])[0]).replace(l, '') == norm(getattr(opn, 'targets', [None])[0]).replace(lname, '')
+                                                    for _ in [0] if isinstance(o_, (ast.Delete, ast.Assign)) and isinstance(opn, (ast.Delete, ast.Assign)))} | {lname}
+            saved_len = {x.targets[0].id for x in walk_no_nested(fi.node) if isinstance(x, ast.Assign) and len(x.targets) == 1 and
+                         isinstance(x.targets[0], ast.Name) and isinstance(x.value, ast.Call) and call_name(x.value) == 'len' and x.value.args and
+                         norm(x.value.args[0]) in twin_lists and x.lineno < opn.lineno}
+            saved_len = {v for v in saved_len if sum(1 for y in ast.walk(fi.node) if isinstance(y, ast.Name) and y.id == v and isinstance(y.ctx, ast.Store)) == 1}
+
+            def same_length_edge(n, lab):
+                t = n.ast if n.kind == 'test' else None
+                if isinstance(t, ast.Compare) and len(t.ops) == 1 and isinstance(t.ops[0], (ast.Eq, ast.NotEq)):
+                    a_, b_ = t.left, t.comparators[0]
+                    for u, v in ((a_, b_), (b_, a_)):
+                        if isinstance(u, ast.Call) and call_name(u) == 'len' and u.args and norm(u.args[0]) in twin_lists and isinstance(v, ast.Name) and v.id in saved_len:
+                            return lab == ('true' if isinstance(t.ops[0], ast.Eq) else 'false')
+                return False
             okk = True
             for nd in opnodes:
-                reach = cfg.reachable(nd.id, lambda n, lab, s: lab != 'exc', stop=good)
+                reach = cfg.reachable(nd.id, lambda n, lab, s: lab != 'exc' and not same_length_edge(n, lab), stop=good)
                 if cfg.exit in reach:
                     okk = False
             fkey = fi.key.split('.', 1)[1].split('[')[0]
